@@ -27,13 +27,13 @@ from harness import core, tlaval, life_common
 
 LEVEL = "model_checking"
 MC = """SPECIFICATION Spec
-CONSTANTS Addrs = {1,2,3}
+CONSTANTS Addrs = {%s}
   MaxSer = %d
   Mode = "%s"
   Variant = "%s"
   GcAtomic = %s
   Prims = {%s}
-  MinAddr = FALSE
+  MinAddr = %s
 VIEW View
 PROPERTY RefinesIdeal
 %s
@@ -108,8 +108,13 @@ def random_history(rng, steps, resurrect=False):
             ast, s = gen_type(rng, bases, 3)
             ops.append(["typeof", f, s, ast, newref(ast[0])])
         elif r < 0.40:
-            ast, s = gen_type(rng, [["prim", p] for p in PRIMS], 3)
-            ops.append(["ool", s, ast, newref(ast[0])])
+            if rng.random() < 0.3:
+                s, ast = rng.choice(TYPEDEF_FN)
+                ops.append(["ool", s, ast, newref("fn")] if rng.random() < 0.5 else
+                           ["typeof", rng.choice(ffis), s, ast, newref("fn")])
+            else:
+                ast, s = gen_type(rng, [["prim", p] for p in PRIMS], 3)
+                ops.append(["ool", s, ast, newref(ast[0])])
         elif r < 0.46:
             ops.append(["bprim", rng.choice(PRIMS), newref("prim")])
         elif r < 0.56 and refs:
@@ -123,8 +128,9 @@ def random_history(rng, steps, resurrect=False):
                 recipe[ops[-1][-1]] = ops[-1]
         elif r < 0.68:
             cand = [x for x in sorted(refs) if refs[x] in ("prim", "ptr")]
+            acand = cand + [x for x in sorted(refs) if refs[x] == "arr"] * 2     # array parameters decay
             if cand:
-                args = [rng.choice(cand) for _ in range(rng.randrange(0, 3))]
+                args = [rng.choice(acand) for _ in range(rng.randrange(0, 3))]
                 ops.append(["bfn", args, rng.choice(cand), False, newref("fn")])
                 recipe[ops[-1][-1]] = ops[-1]
         elif r < 0.74:
@@ -170,6 +176,55 @@ def random_history(rng, steps, resurrect=False):
             ops.append(["dropffi", f])
         else:
             ops.append(["gc"])
+    return ops
+
+
+TYPEDEF_FN = [  # (type string, expected structure): typedef'd array parameters decay like literal ones
+    ("fn_t *", ["ptr", ["fn", ["void"], [["ptr", ["prim", "int"]]]]]),
+    ("void(*)(int *)", ["ptr", ["fn", ["void"], [["ptr", ["prim", "int"]]]]]),
+    ("void(*)(int[5])", ["ptr", ["fn", ["void"], [["ptr", ["prim", "int"]]]]]),
+    ("fn2_t *", ["ptr", ["fn", ["prim", "short"], [["ptr", ["prim", "long"]], ["ptr", ["prim", "int"]]]]]),
+    ("short(*)(long *, int[])", ["ptr", ["fn", ["prim", "short"], [["ptr", ["prim", "long"]], ["ptr", ["prim", "int"]]]]]),
+]
+
+
+def array_param_history(rng):
+    """function types with array-typed parameters through the backend constructor, in both construction
+    orders and several lengths; then the array types are dropped and collected, fresh unrelated ctypes are
+    built (their addresses may be those of the dead array types) and function types over them requested"""
+    p1, p2 = rng.sample(PRIMS, 2)
+    ops = [["bprim", p1, "p"], ["bptr", "p", "q"], ["bprim", p2, "r"], ["bptr", "r", "rq"]]
+    lens = rng.sample([None, 1, 2, 5, 7], 3)
+    for i, n in enumerate(lens):
+        ops.append(["barr", "q", n, "a%d" % i])
+    order = rng.random() < 0.5
+    k = 0
+    for i in range(len(lens)):
+        first = [["bfn", ["a%d" % i], "r", False, "fa%d" % i], ["bfn", ["q"], "r", False, "fq%d" % i]]
+        for op in (first if order else first[::-1]):
+            ops.append(op)
+        if rng.random() < 0.5:
+            ops.append(["bfn", ["p", "a%d" % i, "a%d" % ((i + 1) % len(lens))], "q", False, "fm%d" % i])
+            ops.append(["bfn", ["p", "q", "q"], "q", False, "fn%d" % i])
+    keep = rng.random() < 0.5
+    for i in range(len(lens)):          # drop the array types (and perhaps the pointer-parameter twins)
+        ops.append(["drop", "a%d" % i])
+        if not keep:
+            ops.append(["drop", "fq%d" % i])
+    ops.append(["gc"])
+    for j in range(rng.randrange(3, 9)):     # fresh unrelated ctypes: address reuse
+        kind = rng.choice(["ptrptr", "arr", "ptr"])
+        if kind == "ptrptr":
+            ops += [["bptr", "rq" if j % 2 else "q", "n%d" % j]]
+        elif kind == "arr":
+            ops += [["barr", "rq", rng.choice([None, 3, 4]), "n%d" % j]]
+        else:
+            ops += [["bprim", rng.choice(PRIMS), "np%d" % j], ["bptr", "np%d" % j, "n%d" % j]]
+        ops.append(["bfn", ["n%d" % j], "r", False, "g%d" % j])
+        if rng.random() < 0.4:
+            ops.append(["bfn", ["p", "n%d" % j, "n%d" % j], "q", False, "h%d" % j])
+    if rng.random() < 0.5:
+        ops += [["ool", s, a, "t%d" % i] for i, (s, a) in enumerate(rng.sample(TYPEDEF_FN, 3))]
     return ops
 
 
@@ -306,21 +361,30 @@ def design_level(ctx, quick):
     n = 3 if quick else 4
     pr = "0" if quick else "0,1"        # quick: one primitive in the interleaved runs
 
-    def mc(name, mode, atomic, d, maxser, prims="0,1"):
-        r = core.tlc("UniqueCache", cfg_text=MC % (maxser, mode, "faithful", atomic, prims, FULL), dump=d, workers=4,
+    def mc(name, mode, atomic, d, maxser, prims="0,1", addrs="1,2,3", minaddr="FALSE"):
+        r = core.tlc("UniqueCache", cfg_text=MC % (addrs, maxser, mode, "faithful", atomic, prims, minaddr, FULL), dump=d,
+                     workers=6 if d else 3,
                      timeout=3000)
         ctx.add_tlc(name, r)
 
     def variant(v):
-        r = core.tlc("UniqueCache", cfg_text=MC % (4, "c", v, "TRUE" if v == "removealways" else "FALSE", "0", ""), workers=3, timeout=1500)
+        if v == "key-from-raw-args":      # needs a function type with an array parameter: 4 addresses, 5 objects
+            text = MC % ("1,2,3,4", 5, "c", v, "TRUE", "0", "TRUE", "")
+        else:
+            text = MC % ("1,2,3", 4, "c", v, "TRUE" if v == "removealways" else "FALSE", "0", "FALSE", "")
+        r = core.tlc("UniqueCache", cfg_text=text, workers=2, timeout=1500)
         ctx.add_tlc("sanity:" + v, r, require_ok=False, count_states=False)
         if r.ok or "RefinesIdeal is violated" not in r.out:
             raise core.MachineryError("broken variant %s of UniqueCache was not rejected by TLC:\n%s" % (v, r.out[-1500:]))
     jobs = {"c": (mc, ("MC_UniqueCache(C cache, 3 addresses, %d objects, gc phases interleaved)" % n, "c", "FALSE", None, n, pr)),
             "py": (mc, ("MC_UniqueCache(Python cache, 3 addresses, %d objects)" % n, "py", "FALSE", None, n, pr)),
-            "dump": (mc, ("MC_UniqueCache(C cache, atomic collection, 3 objects)", "c", "TRUE", dump, 3)),
-            "removealways": (variant, ("removealways",)), "nodeadcheck": (variant, ("nodeadcheck",))}
+            "dump": (mc, ("MC_UniqueCache(C cache, atomic collection, 4 addresses, 4 objects, lowest free address)",
+                          "c", "TRUE", dump, 4, "0", "1,2,3,4", "TRUE")),
+            "removealways": (variant, ("removealways",)), "nodeadcheck": (variant, ("nodeadcheck",)),
+            "key-from-raw-args": (variant, ("key-from-raw-args",))}
     if not quick:
+        jobs["a44"] = (mc, ("MC_UniqueCache(C cache, atomic collection, 4 addresses, 4 objects, any free address)",
+                            "c", "TRUE", None, 4, "0", "1,2,3,4", "FALSE"))
         jobs["c5"] = (mc, ("MC_UniqueCache(C cache, 3 addresses, 5 objects)", "c", "FALSE", None, 5))
     life_common.parallel(jobs)
     g = tlaval.load_dot(dump + ".dot", parse=False)
@@ -378,7 +442,8 @@ def build(ctx):
     d = os.path.join(ctx.tmp, "uc")
     os.makedirs(d, exist_ok=True)
     fb = cffi.FFI()
-    fb.cdef("struct cv27s { struct cv27s *next; int v; }; int cv27f(int);")
+    fb.cdef("struct cv27s { struct cv27s *next; int v; }; int cv27f(int);"
+            "typedef int vec_t[5]; typedef void fn_t(vec_t); typedef long lvec_t[2]; typedef short fn2_t(lvec_t, vec_t);")
     fb.set_source("_cv27_ool", None)
     fb.emit_python_code(os.path.join(d, "_cv27_ool.py"))
     return {"ooldir": d, "oolmod": "_cv27_ool"}
@@ -396,11 +461,13 @@ def run(ctx):
     init, out = design_level(ctx, quick)
     phase("tlc-design")
     rng = ctx.rng
-    paths, nedges, ncov = graph_paths(init, out, rng, 300 if quick else 3000, 1500 if quick else None)
+    paths, nedges, ncov = graph_paths(init, out, rng, 300 if quick else 3000, 1500 if quick else 30000)
     hist = [ops_from_path(p) for p in paths]
     nmodel = len(hist)
     for _ in range(150 if quick else 2000):
         hist.append(random_history(rng, rng.randrange(30, 120)))
+    for _ in range(40 if quick else 800):          # function types with array-typed parameters
+        hist.append(array_param_history(rng))
     nres0 = len(hist)
     for _ in range(12 if quick else 200):          # finalizers that resurrect a collected ctype
         hist.append(resurrection_history(rng) if rng.random() < 0.7 else
